@@ -23,6 +23,8 @@ def _oracle(ctx, b, n, seq, shifted, tag=""):
     ea, da = abs_events(raw_abs(seq))
     notes_r, unp_r = pair_notes(er)
     notes_a, unp_a = pair_notes(ea)
+    # (the two views must describe the same result; the re-quantisation after an octave wrap works on one view)
+    ctx.must("views_agree", and_(events_eq_multiset_timed(er, ea), eq(dr, da)))
     ctx.must("in_range", and_([and_(e.m.note >= LO, e.m.note <= HI) for e in er + ea if e.kind in (ON, OFF)]))
     ctx.must("image_of_original", and_([
         or_([and_(eq(o.start, i.start), eq(o.ch, i.ch), eq((o.pitch - i.pitch - n) % 12, 0)) for i in b.notes])
@@ -93,7 +95,7 @@ def q_seq(name, spec, pitch, nrange, key=None, wait=(11, 13), near=None, max_pat
                                                 eq(dr2, b.total)))
             obs.append(obs_events(er2, dr2))
         return obs + [shifted]
-    cl = ["in_range", "image_of_original", "return_value", "exact_shift_when_not_wrapped",
+    cl = ["views_agree", "in_range", "image_of_original", "return_value", "exact_shift_when_not_wrapped",
           "duration_kept_when_not_wrapped", "key_defined", "roundtrip_restores"]
     if key is not None:
         cl.append("key_transposed")
